@@ -55,9 +55,17 @@ def sibling_cases(draw):
     or only in the owners of some player states.  Each is compared with its own exact conditioned values."""
     g = draw(games.stopping_games(min_inner=2, max_inner=8, dyadic=True))
     h = games.copy_game(g)
-    how = draw(st.sampled_from(("rewards", "owners")))
+    how = draw(st.sampled_from(("rewards", "owners", "hash_congruent_reward")))
     n = len(g["players"])
-    if how == "rewards":
+    if how == "hash_congruent_reward":
+        # CPython hashes numbers modulo 2**61 - 1: r and r + 2**61 - 1 are different rewards with the same hash
+        inner = [s for s in range(n) if not exact.is_absorbing(g, s)]
+        s_ = draw(st.sampled_from(inner))
+        r_ = draw(st.sampled_from((0, 1, 3)))
+        g = games.copy_game(g)
+        g["rewards"][s_] = r_
+        h["rewards"][s_] = r_ + 2 ** 61 - 1
+    elif how == "rewards":
         for s in range(n):
             if not exact.is_absorbing(g, s) and draw(st.booleans()):
                 h["rewards"][s] = draw(st.sampled_from((0, 1, 2, 3, 5, 0.5, 7.25)))
